@@ -140,6 +140,7 @@ def gen(seed, run, tier='quick'):
          'tick': rng.choice([0, 0, 1, 2]),
          'clockfail': rng.choice([0, 0, 1, 1]),
          'snapshot': rng.choice([0, 0, 1]),
+         'bulk': rng.choice([0, 0, 0, 0, 1]),
          'clockupdate': rng.choice([0, 0, 1, 1]),
          'bad_validity': rng.choice([0, 1, 2]),
          'datetime_validity': rng.choice([0, 0, 1]),
@@ -156,6 +157,7 @@ def gen(seed, run, tier='quick'):
     ops = []
     used_primes = set()
     big_p = rng.choice([0, 0, 0, 0.05, 0.15])
+    small_p = rng.choice([0, 0, 0, 0.05, 0.15])
 
     def amount(um):
         """run-unique term amount p/10^j (p prime) with the rate
@@ -216,6 +218,22 @@ def gen(seed, run, tier='quick'):
             umt = rng.choice(['int', 'int', 'dec', 'str', 'dec2', 'frac',
                               'str2'])
             how = 'sym' if rng.random() < sym_cur_p else 'obj'
+            if rng.random() < small_p:
+                # a strong currency quoted per million of a weak base
+                # currency: small term amount (>= 0.000001 as required),
+                # big unit multiple, a rate far below 0.000001 per unit
+                um = 10 ** rng.choice([6, 7, 8])
+                while True:
+                    p = rng.choice(primes)
+                    if p not in used_primes:
+                        used_primes.add(p)
+                        break
+                specs.append([[j, how],
+                              {'t': rng.choice(['dec', 'str', 'frac']),
+                               'v': '0.%05d' % p},
+                              {'t': rng.choice(['int', 'dec', 'str']),
+                               'v': um}])
+                continue
             specs.append([[j, how], amount(um), {'t': umt, 'v': um}])
         # the same currency twice in one update (later entry wins)
         if rng.random() < 0.1 and specs:
@@ -331,6 +349,12 @@ def gen(seed, run, tier='quick'):
             ops.append(['tick', rng.choice([1, 1, 2, 3]),
                         some_date().isoformat(), ci])
             ops.append(['get', ci, a, b, None])
+        elif k == 'bulk':
+            # a feed that runs for a long time: hundreds of consecutive
+            # periods, all currencies each time
+            if convs[ci]['kind'] != 'none' and rng.random() < 0.4:
+                ops.append(['bulk', ci, rng.choice([60, 400, 900]),
+                            rng.randrange(1000)])
         elif k == 'snapshot':
             # copy.deepcopy(converter): from now on two independent
             # converters with the same past
@@ -1084,6 +1108,48 @@ def execute(h):
                     bump(faults, 'clock_jump_forward')
                 clock.set(d)
                 out = 'set'
+            elif kind == 'bulk':
+                ci = op[1] % len(convs)
+                model = models[ci]
+                bkind = model.kind or cfg['convs'][ci]['kind']
+                if bkind == 'none':
+                    log.append([i, 'skipped'])
+                    continue
+                base = cfg['convs'][ci]['base'] % n_cur
+                others = [j for j in range(n_cur) if j != base]
+                start = dt.date(2001, 1, 1)
+                marks = []
+                for step_ in range(op[2]):
+                    if bkind == 'day':
+                        d_ = start + dt.timedelta(days=step_)
+                        vj = {'t': 'date', 'v': d_.isoformat()}
+                    elif bkind == 'month':
+                        d_ = dt.date(2001 + step_ // 12, 1 + step_ % 12, 15)
+                        vj = {'t': 'tuple_int', 'v': [d_.year, d_.month]}
+                    else:
+                        d_ = dt.date(2001 + step_, 6, 30)
+                        vj = {'t': 'int', 'v': d_.year}
+                    specs = [[[j, 'obj'],
+                              {'t': 'dec', 'v': '%d.%03d' % (
+                                  1 + (step_ + op[3]) % 7,
+                                  (step_ * 7 + j * 131 + op[3]) % 1000)},
+                              {'t': 'int', 'v': 1}] for j in others]
+                    must = model.update(vj, specs)
+                    o = observe(lambda: ('ok', convs[ci].update(
+                        mk_validity(vj),
+                        [(curs[c], mk_amount(amt), mk_um(um))
+                         for (c, _h), amt, um in specs])))
+                    if (o[0] == 'ok') != must:
+                        violate('update', 'accepted_invalid' if o[0] == 'ok'
+                                else 'rejected_valid', i, validity=vj,
+                                observed=list(o), bulk_step=step_)
+                    if step_ in (0, op[2] // 2, op[2] - 1):
+                        marks.append(d_)
+                for d_ in marks:
+                    if d_ not in probe_dates:
+                        probe_dates.append(d_)
+                bump(probes, 'long_feed_%d' % op[2])
+                out = 'fed'
             elif kind == 'snapshot':
                 ci = op[1] % len(convs)
                 if len(convs) < 6:
